@@ -30,30 +30,66 @@ func unliteralize(filename string, src []byte) ([]byte, int) {
 		return src, 0
 	}
 	n := 0
-	// the IIFE of a statement, if the statement has one of the supported shapes
-	iifeOf := func(s ast.Stmt) (*ast.CallExpr, *ast.FuncLit) {
-		var e ast.Expr
+	// the IIFE of a statement, if the statement has one of the supported shapes: the call is the whole expression
+	// (modulo parentheses and !) of an expression statement, of the single right-hand side of an assignment, of the
+	// single result of a return, or of the condition of an if without init statement. slot is where it sits.
+	find := func(e *ast.Expr) (**ast.CallExpr, *ast.Expr) {
+		for {
+			switch x := (*e).(type) {
+			case *ast.ParenExpr:
+				e = &x.X
+				continue
+			case *ast.UnaryExpr:
+				if x.Op == token.NOT {
+					e = &x.X
+					continue
+				}
+			}
+			break
+		}
+		if call, ok := (*e).(*ast.CallExpr); ok {
+			return &call, e
+		}
+		return nil, nil
+	}
+	iifeSlot := func(s ast.Stmt) (*ast.CallExpr, *ast.FuncLit, *ast.Expr) {
+		var e *ast.Expr
 		switch x := s.(type) {
 		case *ast.ExprStmt:
-			e = x.X
+			e = &x.X
 		case *ast.AssignStmt:
 			if len(x.Rhs) == 1 {
-				e = x.Rhs[0]
+				e = &x.Rhs[0]
 			}
 		case *ast.ReturnStmt:
 			if len(x.Results) == 1 {
-				e = x.Results[0]
+				e = &x.Results[0]
+			}
+		case *ast.IfStmt:
+			if x.Init == nil {
+				e = &x.Cond
 			}
 		}
-		call, ok := e.(*ast.CallExpr)
-		if !ok || len(call.Args) != 0 || call.Ellipsis.IsValid() {
-			return nil, nil
+		if e == nil {
+			return nil, nil, nil
+		}
+		pc, slot := find(e)
+		if pc == nil {
+			return nil, nil, nil
+		}
+		call := *pc
+		if len(call.Args) != 0 || call.Ellipsis.IsValid() {
+			return nil, nil, nil
 		}
 		lit, ok := ast.Unparen(call.Fun).(*ast.FuncLit)
 		if !ok {
-			return nil, nil
+			return nil, nil, nil
 		}
-		return call, lit
+		return call, lit, slot
+	}
+	iifeOf := func(s ast.Stmt) (*ast.CallExpr, *ast.FuncLit) {
+		c, l, _ := iifeSlot(s)
+		return c, l
 	}
 	supported := func(lit *ast.FuncLit) bool {
 		if lit.Type.Params != nil && len(lit.Type.Params.List) > 0 {
@@ -136,14 +172,30 @@ func unliteralize(filename string, src []byte) ([]byte, int) {
 		return pre, results
 	}
 	replaceCall := func(s ast.Stmt, results []ast.Expr) ast.Stmt {
+		_, _, slot := iifeSlot(s)
 		switch x := s.(type) {
 		case *ast.ExprStmt:
-			return nil // the statement disappears
+			if slot == &x.X {
+				return nil // the statement disappears
+			}
+			*slot = results[0]
+			return x
 		case *ast.AssignStmt:
-			x.Rhs = results
+			if slot == &x.Rhs[0] {
+				x.Rhs = results
+				return x
+			}
+			*slot = results[0]
 			return x
 		case *ast.ReturnStmt:
-			x.Results = results
+			if slot == &x.Results[0] {
+				x.Results = results
+				return x
+			}
+			*slot = results[0]
+			return x
+		case *ast.IfStmt:
+			*slot = results[0]
 			return x
 		}
 		return s
@@ -206,6 +258,20 @@ func unliteralize(filename string, src []byte) ([]byte, int) {
 				nres = len(lit.Type.Results.List)
 			}
 			if nres != len(as.Lhs) {
+				return true
+			}
+		}
+		if _, _, slot := iifeSlot(st); slot != nil {
+			direct := false
+			switch x := st.(type) {
+			case *ast.ExprStmt:
+				direct = slot == &x.X
+			case *ast.AssignStmt:
+				direct = slot == &x.Rhs[0]
+			case *ast.ReturnStmt:
+				direct = slot == &x.Results[0]
+			}
+			if !direct && (lit.Type.Results == nil || len(lit.Type.Results.List) != 1) {
 				return true
 			}
 		}
